@@ -278,6 +278,9 @@ class OpaqueFn:
         return sp.Function(self.name)(*[sp.sympify(S(f)) if not isinstance(f, str) else sp.Symbol(f) for f in flat])
 
 
+EXTERNAL_RESOLVER = None     # set by the driver: (importing module ast, name) -> (FunctionDef, defining module ast) or None
+
+
 class StrLike:
     """marker: analyser-side value that stands for a string and defines its own + with str"""
 
@@ -556,6 +559,8 @@ NP_FUNCS.update({
     'math.atan': lambda x: sp.atan(x), 'math.atan2': lambda y, x: sp.atan2(y, x), 'math.log': lambda x, *b: sp.log(x, *b), 'math.exp': lambda x: sp.exp(x), 'math.floor': lambda x: sp.floor(x), 'math.ceil': lambda x: sp.ceiling(x),
     'math.fabs': lambda x: sp.Abs(x), 'math.radians': lambda x: x * sp.pi / 180, 'math.degrees': lambda x: x * 180 / sp.pi, 'math.gcd': lambda *a: sp.Integer(__import__('math').gcd(*[int(v) for v in a])),
     'math.hypot': lambda *a: sp.sqrt(sum(v ** 2 for v in a)), 'math.isclose': lambda a, b, **k: _isclose(a, b), 'math.prod': lambda xs: sp.Mul(*_pylist(xs)),
+    'operator.index': lambda v: _op_index(v), 'operator.add': lambda a, b: a + b, 'operator.sub': lambda a, b: a - b, 'operator.mul': lambda a, b: a * b, 'operator.neg': lambda a: -a,
+    'operator.itemgetter': lambda *ks: (lambda o: o[ks[0]] if len(ks) == 1 else tuple(o[k_] for k_ in ks)),
     'collections.OrderedDict': lambda *a, **k: dict(*a, **k), 'collections.defaultdict': lambda *a, **k: dict(),
     'copy.copy': lambda x: (x.copy() if is_arr(x) else (list(x) if isinstance(x, list) else (dict(x) if isinstance(x, dict) else x))),
 })
@@ -740,7 +745,7 @@ class SymEval:
     MAX_PATHS = 256
 
     def __init__(self, aliases=None, funcs=None, decide=None, opaque_calls=True, max_depth=6):
-        self.aliases = {'np': 'numpy', 'numpy': 'numpy', 'deepcopy': 'copy.deepcopy', 'copy': 'copy', 'itertools': 'itertools', 'math': 'math', 'functools': 'functools', 'collections': 'collections'}
+        self.aliases = {'np': 'numpy', 'numpy': 'numpy', 'deepcopy': 'copy.deepcopy', 'copy': 'copy', 'itertools': 'itertools', 'math': 'math', 'functools': 'functools', 'collections': 'collections', 'operator': 'operator'}
         self.aliases.update(aliases or {})
         self.funcs = dict(funcs or {})
         self.decide = decide
@@ -826,6 +831,13 @@ class SymEval:
             return self.np_override[g]
         if g in NP_FUNCS:
             return NP_FUNCS[g]
+        if EXTERNAL_RESOLVER is not None and self.module is not None:
+            ext = EXTERNAL_RESOLVER(self.module, n.id)      # a function of the repository imported from another module
+            if ext is not None:
+                fn_, mod_ = ext
+                sub = SymEval(module_aliases(mod_))
+                sub.globals, sub.np_override, sub.decide = self.globals, self.np_override, self.decide
+                return Closure(fn_, sub)
         if n.id in ('range', 'len', 'int', 'float', 'abs', 'sum', 'min', 'max', 'list', 'tuple', 'isinstance', 'complex', 'round', 'zip', 'enumerate', 'str'):
             if n.id == 'len':
                 def _len(x):
@@ -837,14 +849,20 @@ class SymEval:
                     return len(x)
                 return _len
             return {'range': lambda *a: list(range(*[int(x) for x in a])), 'len': len, 'int': lambda x: (S(int(x)) if isinstance(x, str) else x), 'float': lambda x: (S(int(x)) if isinstance(x, str) and x.strip().lstrip('+-').isdigit() else (S(float(x)) if isinstance(x, str) else x)),
-                    'abs': lambda x: sp.Abs(x), 'sum': lambda x: sum(x), 'min': lambda *a: sp.Min(*(a[0] if len(a) == 1 else a)),
-                    'max': lambda *a: sp.Max(*(a[0] if len(a) == 1 else a)), 'list': list, 'tuple': tuple,
+                    'abs': lambda x: sp.Abs(x), 'sum': lambda x, start=0: sum(self.iterate(x, n), start), 'min': lambda *a, **k: _minmax(sp.Min, min, a, k, lambda v: self.iterate(v, n)),
+                    'max': lambda *a, **k: _minmax(sp.Max, max, a, k, lambda v: self.iterate(v, n)), 'list': lambda *a: list(self.iterate(a[0], n)) if a else [], 'tuple': lambda *a: tuple(self.iterate(a[0], n)) if a else (),
                     'isinstance': lambda *a: Opaque, 'complex': lambda a, b=0: a + sp.I * b, 'round': lambda x, n=0: x,
                     'zip': lambda *a: list(zip(*[self.iterate(x, n) for x in a])), 'enumerate': lambda a, start=0: list(enumerate(self.iterate(a, n), int(start))), 'str': str}[n.id]
         if n.id == 'iter':
             return lambda x: _ModelIter(self.iterate(x, n))
         if n.id == 'next':
             def _next(it, *default):
+                if isinstance(it, (list, tuple)):      # a generator expression (evaluated eagerly): its first item
+                    if it:
+                        return it[0]
+                    if default:
+                        return default[0]
+                    raise ModelError('StopIteration', 'iterator exhausted')
                 if not isinstance(it, _ModelIter):
                     raise Opaque('next() of %s' % type(it).__name__)
                 try:
@@ -1278,6 +1296,11 @@ class SymEval:
                 return lambda *a, **k: base
             if attr == 'values':
                 return base
+        if isinstance(base, (bool, np.bool_)) or base is sp.true or base is sp.false:
+            if attr in ('all', 'any'):
+                return lambda *a, **k: bool(base)
+            if attr == 'sum':
+                return lambda *a, **k: sp.Integer(int(bool(base)))
         if isinstance(base, sp.Basic):
             if attr == 'real':
                 return sp.re(base)
@@ -1421,9 +1444,24 @@ class SymEval:
               'bool': (bool,), 'np.integer': (int, sp.Integer), 'numpy.integer': (int, sp.Integer), 'np.ndarray': (np.ndarray,), 'numpy.ndarray': (np.ndarray,),
               'np.floating': (float, sp.Float), 'Integral': (int, sp.Integer), 'Real': (int, float, sp.Integer, sp.Float, sp.Rational)}
 
+    def _type_exprs(self, t, depth=0):
+        """the type expressions a second argument of isinstance stands for: a tuple literal, or a name bound once to one (e.g. `inttypes = (int, np.integer)`)"""
+        if isinstance(t, ast.Tuple):
+            out = []
+            for e in t.elts:
+                out.extend(self._type_exprs(e, depth))
+            return out
+        if isinstance(t, ast.Name) and norm(t) not in self._TYPES and depth < 3:
+            scopes = ([self.fn_stack[-1]] if self.fn_stack else []) + ([self.module] if self.module is not None else [])
+            for sc in scopes:
+                defs = [a for a in ast.walk(sc) if isinstance(a, ast.Assign) and len(a.targets) == 1 and isinstance(a.targets[0], ast.Name) and a.targets[0].id == t.id]
+                if len(defs) == 1 and isinstance(defs[0].value, (ast.Tuple, ast.Name, ast.Attribute)):
+                    return self._type_exprs(defs[0].value, depth + 1)
+        return [t]
+
     def _isinstance(self, n, p):
         v = self.ev(n.args[0], p)
-        tys = n.args[1].elts if isinstance(n.args[1], ast.Tuple) else [n.args[1]]
+        tys = self._type_exprs(n.args[1])
         out = False
         for t in tys:
             key = norm(t)
@@ -1668,6 +1706,11 @@ class SymEval:
                     base[idx] = v
                 except (IndexError, ValueError, TypeError) as e:
                     raise Opaque('store into %s: %s' % (norm(t), e))
+            elif isinstance(base, (sp.Basic, int, float, tuple, str)) and not isinstance(base, bool):
+                # a number (numpy scalar), tuple or str does not support item assignment
+                if self.try_depth > 0:
+                    raise _PyRaise('TypeError')
+                raise WouldRaise('TypeError: %s object does not support item assignment in %s' % (type(base).__name__, norm(t)))
             else:
                 raise Opaque('store into %s' % norm(t))
         elif isinstance(t, ast.Attribute):
@@ -1908,6 +1951,32 @@ def _intidx(x):
         if all(isinstance(e, (int, np.integer, sp.Integer)) and not isinstance(e, (bool, np.bool_)) for e in flat):
             return np.array([int(e) for e in flat], dtype=int).reshape(x.shape)
     return x
+
+
+def _op_index(v):
+    if isinstance(v, (bool, np.bool_)):
+        return int(v)
+    if isinstance(v, (int, np.integer, sp.Integer)):
+        return sp.Integer(int(v))
+    if isinstance(v, sp.Basic) and v.is_integer and v.is_number:
+        return sp.Integer(int(v))
+    if isinstance(v, sp.Basic) and not v.is_number:
+        raise Opaque('operator.index of a symbolic value')
+    raise ModelError('TypeError', "'%s' object cannot be interpreted as an integer" % type(v).__name__)
+
+
+def _minmax(symf, pyf, a, k, it):
+    """builtin min / max: over an iterable or several arguments, with `default` for an empty iterable"""
+    if 'key' in k:
+        raise Opaque('min/max with key=')
+    vals = list(it(a[0])) if len(a) == 1 else list(a)
+    if not vals:
+        if 'default' in k:
+            return k['default']
+        raise ModelError('ValueError', 'min()/max() arg is an empty sequence')
+    if all(isinstance(v, (int, sp.Integer)) and not isinstance(v, bool) for v in vals):
+        return sp.Integer(pyf(int(v) for v in vals))
+    return symf(*vals)
 
 
 class _ModelIter:
